@@ -9,7 +9,7 @@ class C20(C20bPart, Prop):
     n_quick, n_thorough, shard = 300, 6000, 100
     ready = True
     level = "proof"
-    rule = 'histories = scripted witnesses (C19 finding, override, maxReaders, on-demand cycles) + random operation sequences (5-40 ops: Describe, AddPublisher, RemovePublisher, AddReader, RemoveReader, StaticReady/NotReady, TimerFire of each of the 4 timers, ReloadConf, Close, ops after Close) over random confs (publisher / runOnDemand / static / static on-demand / alwaysAvailable publisher / alwaysAvailable static (30%), overridePublisher, maxReaders -1..3, every hook on/off; publishers offer the tracks of the stream or, 1 in 3, tracks that SubStream.Initialize of an alwaysAvailable stream refuses; scripted alwaysAvailable histories: override refused, Close while online, static, maxReaders), run on a real core.path; per operation the observed events (parent callbacks, Close() calls, hook and source log lines, answers) and the identity of the current sub-stream of the stream after the step (offline / handed to publisher p / static / none, read from stream.Stream.subStream through reflect) are compared with the model inside Coq; non-trivial = at least one stream was created; distinct = distinct (conf, history, observations)'
+    rule = 'histories = scripted witnesses (C19 finding, override, maxReaders, on-demand cycles) + random operation sequences (5-40 ops: Describe, AddPublisher, RemovePublisher, AddReader, RemoveReader, StaticReady/NotReady, TimerFire of each of the 4 timers, ReloadConf, Close, ops after Close) over random confs (publisher / runOnDemand / static / static on-demand / alwaysAvailable publisher / alwaysAvailable static (30%), overridePublisher, maxReaders -1..3, every hook on/off; publishers offer the tracks of the stream or, 1 in 3, tracks that SubStream.Initialize of an alwaysAvailable stream refuses; scripted alwaysAvailable histories: override refused, Close while online, static, maxReaders), run on a real core.path; per operation the observed events (parent callbacks, Close() calls, hook and source log lines, answers) and the identity of the current sub-stream of the stream after the step (offline / handed to publisher p / static / none, read from stream.Stream.subStream through reflect) are compared with the model inside Coq; non-trivial = at least one stream was created; distinct = distinct (conf, history, observations). HLS reader hooks (second driver, internal/servers/hls): 18 server lives per quick run, 2 per scenario class (cdn-concurrent-first: 2-3 CDN requests held together in AddReader before any is registered, released in order or reversed; ordinary; cdn-sequential; mixed-concurrent; expire; instance-crash on an always-remux and on a client-requested muxer; muxer-close-then-new; cdn-concurrent-after-loss; random), runOnRead/runOnUnread both set (4 in 6) or only one, alwaysRemux 1 in 3; operations arrive / proceed (admitted or not) / kick / expire / close-all / Server.Close / late proceeds; per operation and session the runOnRead started/stopped and runOnUnread launched lines are compared with Model/C20b_HlsMux.v and judged by the pairing spec'
     trusted_base = ['Coq 8.16.1 kernel + VM (vm_compute for cases and for the _refuted witness)', 'in-package Go driver harness/inpkg/internal/core/zz_verif_pathsm_test.go (real core.path, recording parent, fake publishers/readers; timers fired through Stop()/Reset(0))', 'model Model/PathSM.v hand-written (transliteration of internal/core/path.go handlers, internal/hooks closures, staticsources.Handler start/stop protocol), tied by correspondence on every run']
     assumptions = ['the path goroutine handles one message at a time (single select loop), so its behaviour is a step function', 'hot reload (doReloadConf) changes only fields outside the model (pathConfCanBeUpdated); redirect, fallback, recording are not modelled and not generated', 'conf.Path.validate: runOnDemand only with source: publisher; alwaysAvailable excludes sourceOnDemand, runOnDemand, runOnUnDemand (conf_ok)', 'on alwaysAvailable paths the static source always offers compatible tracks (only publishers are generated with refused tracks); Stream.Initialize / StartOfflineSubStream do not fail for the configured G711 track', 'static source instances alternate SetReady / SetNotReady while their handler runs (protocol of internal/staticsources/handler.go, played by the driver)']
     manifest = dict(
